@@ -49,7 +49,7 @@ Inductive action : Type :=
 
 Inductive lev : Type :=
 | LCb (cb err n depth : Z)
-| LStart (cb o : Z) (write all : bool)
+| LStart (cb o : Z) (write all : bool) (len : Z)
 | LCancel (o : Z) (fin : bool)         (* begin / end of Cancel *)
 | LClose (o err : Z)
 | LSched (t : Z) (rep : bool) (ms cb err : Z)
@@ -67,10 +67,11 @@ Record loop : Type := mkloop {
   l_now : Z;
   l_depth : Z;                         (* ghost: callbacks currently on the stack *)
   l_log : list lev;                    (* ghost: newest first *)
-  l_fuel_out : bool
+  l_fuel_out : bool;
+  l_budget : Z                         (* callbacks whose program may still run during the current script line *)
 }.
 
-Definition loop_init : loop := mkloop 0 0 [] [] [] [] 0 0 [] false.
+Definition loop_init : loop := mkloop 0 0 [] [] [] [] 0 0 [] false 300.
 
 (* ---- association lists *)
 Fixpoint lookup {A} (k : Z) (l : list (Z * A)) : option A :=
@@ -79,21 +80,21 @@ Fixpoint update {A} (k : Z) (v : A) (l : list (Z * A)) : list (Z * A) :=
   match l with [] => [(k, v)] | (k', v') :: r => if k =? k' then (k, v) :: r else (k', v') :: update k v r end.
 
 Definition set_obj (s : loop) (i : Z) (o : obj) : loop :=
-  mkloop (l_pending s) (l_disp s) (l_posts s) (update i o (l_objs s)) (l_tmrs s) (l_progs s) (l_now s) (l_depth s) (l_log s) (l_fuel_out s).
+  mkloop (l_pending s) (l_disp s) (l_posts s) (update i o (l_objs s)) (l_tmrs s) (l_progs s) (l_now s) (l_depth s) (l_log s) (l_fuel_out s) (l_budget s).
 Definition set_tmr (s : loop) (i : Z) (t : tmr) : loop :=
-  mkloop (l_pending s) (l_disp s) (l_posts s) (l_objs s) (update i t (l_tmrs s)) (l_progs s) (l_now s) (l_depth s) (l_log s) (l_fuel_out s).
+  mkloop (l_pending s) (l_disp s) (l_posts s) (l_objs s) (update i t (l_tmrs s)) (l_progs s) (l_now s) (l_depth s) (l_log s) (l_fuel_out s) (l_budget s).
 Definition set_pending (s : loop) (p : Z) : loop :=
-  mkloop p (l_disp s) (l_posts s) (l_objs s) (l_tmrs s) (l_progs s) (l_now s) (l_depth s) (l_log s) (l_fuel_out s).
+  mkloop p (l_disp s) (l_posts s) (l_objs s) (l_tmrs s) (l_progs s) (l_now s) (l_depth s) (l_log s) (l_fuel_out s) (l_budget s).
 Definition set_disp (s : loop) (d : Z) : loop :=
-  mkloop (l_pending s) d (l_posts s) (l_objs s) (l_tmrs s) (l_progs s) (l_now s) (l_depth s) (l_log s) (l_fuel_out s).
+  mkloop (l_pending s) d (l_posts s) (l_objs s) (l_tmrs s) (l_progs s) (l_now s) (l_depth s) (l_log s) (l_fuel_out s) (l_budget s).
 Definition set_depth (s : loop) (d : Z) : loop :=
-  mkloop (l_pending s) (l_disp s) (l_posts s) (l_objs s) (l_tmrs s) (l_progs s) (l_now s) d (l_log s) (l_fuel_out s).
+  mkloop (l_pending s) (l_disp s) (l_posts s) (l_objs s) (l_tmrs s) (l_progs s) (l_now s) d (l_log s) (l_fuel_out s) (l_budget s).
 Definition set_posts (s : loop) (p : list Z) : loop :=
-  mkloop (l_pending s) (l_disp s) p (l_objs s) (l_tmrs s) (l_progs s) (l_now s) (l_depth s) (l_log s) (l_fuel_out s).
+  mkloop (l_pending s) (l_disp s) p (l_objs s) (l_tmrs s) (l_progs s) (l_now s) (l_depth s) (l_log s) (l_fuel_out s) (l_budget s).
 Definition add_log (s : loop) (e : lev) : loop :=
-  mkloop (l_pending s) (l_disp s) (l_posts s) (l_objs s) (l_tmrs s) (l_progs s) (l_now s) (l_depth s) (e :: l_log s) (l_fuel_out s).
+  mkloop (l_pending s) (l_disp s) (l_posts s) (l_objs s) (l_tmrs s) (l_progs s) (l_now s) (l_depth s) (e :: l_log s) (l_fuel_out s) (l_budget s).
 Definition out_of_fuel (s : loop) : loop :=
-  mkloop (l_pending s) (l_disp s) (l_posts s) (l_objs s) (l_tmrs s) (l_progs s) (l_now s) (l_depth s) (l_log s) true.
+  mkloop (l_pending s) (l_disp s) (l_posts s) (l_objs s) (l_tmrs s) (l_progs s) (l_now s) (l_depth s) (l_log s) true (l_budget s).
 
 Definition new_obj (k : okind) : obj :=
   mkobj k false false false None None false (match k with KReg => 64 | _ => 0 end) false false false.
@@ -131,6 +132,7 @@ Inductive item : Type :=
 | ITimerAfter (t : Z)                   (* the tail of the repeating wrapper *)
 | ICancelWrites (i : Z)                 (* second half of Cancel *)
 | ICancelEnd (i : Z)
+| ILog (e : lev)
 | IPollWrite (i : Z)                    (* write side of a batch entry, evaluated after the read handler returned *)
 | IPollEntry (e : Z * Z * Z).           (* one entry of the epoll batch: (kind, id, mask); kind 0 object, 1 timer, 2 waker *)
 
@@ -215,7 +217,7 @@ Definition do_action (s : loop) (a : action) : loop * list item :=
       | Some o =>
           let p := mkop cb all len 0 in
           let o0 := if write then with_wr o (Some p) (o_evW o) (o_reg o) else with_rd o (Some p) (o_evR o) (o_reg o) in
-          let s := add_log s (LStart cb i write all) in
+          let s := add_log s (LStart cb i write all len) in
           if l_disp s <? sonic_MaxCallbackDispatch then io_now 64 (set_obj s i o0) i write p true
           else schedule s i o0 write p false
       end
@@ -247,7 +249,7 @@ Definition do_action (s : loop) (a : action) : loop * list item :=
       | Some t =>
           if rep && (ms <=? 0) then (add_log s (LSched i rep ms cb xCancelled), [])
           else if t_state t =? 0 then
-            let '(s1, items) := sched_once (add_log s (LSched i rep ms cb xNil)) i t ms cb (if rep then ms else 0) in (s1, items)
+            let '(s1, items) := sched_once s i t ms cb (if rep then ms else 0) in (s1, items ++ [ILog (LSched i rep ms cb xNil)])
           else (add_log s (LSched i rep ms cb xCancelled), [])
       end
   | ATCancel i =>
@@ -321,13 +323,16 @@ Fixpoint exec (fuel : nat) (s : loop) (stack : list item) : loop :=
       | IAct a :: rest => let '(s1, items) := do_action s a in exec f s1 (items ++ rest)
       | ICancelWrites i :: rest => let '(s1, items) := write_event s i xCancelled in exec f s1 (items ++ ICancelEnd i :: rest)
       | ICancelEnd i :: rest => exec f (add_log s (LCancel i true)) rest
+      | ILog e :: rest => exec f (add_log s e) rest
       | IPollWrite i :: rest => let '(s1, items) := write_event s i xNil in exec f s1 (items ++ rest)
       | IPollEntry e :: rest => let '(s1, items) := poll_entry s e in exec f s1 (items ++ rest)
       | IInvoke cb err n wrapped :: rest =>
           let d := l_depth s + 1 in
           let s1 := add_log (set_depth s d) (LCb cb err n d) in
           let s2 := if wrapped then set_disp s1 (l_disp s1 + 1) else s1 in
-          exec f s2 (map IAct (prog_of s2 cb) ++ IEnd wrapped :: rest)
+          let s3 := mkloop (l_pending s2) (l_disp s2) (l_posts s2) (l_objs s2) (l_tmrs s2) (l_progs s2) (l_now s2) (l_depth s2)
+                      (l_log s2) (l_fuel_out s2) (l_budget s2 - 1) in
+          exec f s3 ((if 0 <? l_budget s2 then map IAct (prog_of s2 cb) else []) ++ IEnd wrapped :: rest)
       | IEnd wrapped :: rest =>
           let s1 := set_depth s (l_depth s - 1) in
           exec f (if wrapped then set_disp s1 (l_disp s1 - 1) else s1) rest
@@ -363,14 +368,16 @@ Inductive lop : Type :=
 | LPoll (batch : list (Z * Z * Z))
 | LAct (a : action).
 
-Definition exec_fuel : nat := 4000.
+Definition exec_fuel : nat := 20000.
 
-Definition lstep (s : loop) (o : lop) : loop :=
+Definition lstep (s0 : loop) (o : lop) : loop :=
+  let s := mkloop (l_pending s0) (l_disp s0) (l_posts s0) (l_objs s0) (l_tmrs s0) (l_progs s0) (l_now s0) (l_depth s0)
+             (l_log s0) (l_fuel_out s0) 300 in
   match o with
   | LObj i k => set_obj s i (new_obj k)
   | LTimer i => set_tmr s i new_tmr
   | LProg cb acts => mkloop (l_pending s) (l_disp s) (l_posts s) (l_objs s) (l_tmrs s) (update cb acts (l_progs s)) (l_now s)
-                       (l_depth s) (l_log s) (l_fuel_out s)
+                       (l_depth s) (l_log s) (l_fuel_out s) (l_budget s)
   | LDepth n => set_disp s n
   | LPeer i p =>
       match lookup i (l_objs s) with
@@ -387,7 +394,7 @@ Definition lstep (s : loop) (o : lop) : loop :=
                     end in
           set_obj s i o'
       end
-  | LSleep ms => mkloop (l_pending s) (l_disp s) (l_posts s) (l_objs s) (l_tmrs s) (l_progs s) (l_now s + ms) (l_depth s) (l_log s) (l_fuel_out s)
+  | LSleep ms => mkloop (l_pending s) (l_disp s) (l_posts s) (l_objs s) (l_tmrs s) (l_progs s) (l_now s + ms) (l_depth s) (l_log s) (l_fuel_out s) (l_budget s)
   | LPoll batch => exec exec_fuel s (map IPollEntry batch)
   | LAct a => exec exec_fuel s [IAct a]
   end.
